@@ -717,15 +717,26 @@ func runC34(tier, replay string) {
 		case 3:
 			rules[0].Methods = []string{"get", " put "} // normalised by the server
 		}
-		// baseline without configuration
-		if _, _, _, err := cs.g.do(reqSpec{Method: "DELETE", Host: cs.g.api, Path: "/corsb", RawQuery: "cors"}); err != nil {
-			r.Inconclusive(err.Error())
-			break
-		}
-		before, err := cs.runProbes()
-		if err != nil {
-			r.Inconclusive(err.Error())
-			break
+		// baseline without configuration - only for every other rule set, so that
+		// the remaining ones replace a configuration the server has already used
+		// (a stale cached configuration would then grant under the old rules)
+		var before []probeResult
+		withBaseline := si%2 == 0
+		if withBaseline {
+			if _, _, _, err := cs.g.do(reqSpec{Method: "DELETE", Host: cs.g.api, Path: "/corsb", RawQuery: "cors"}); err != nil {
+				r.Inconclusive(err.Error())
+				break
+			}
+			var err error
+			before, err = cs.runProbes()
+			if err != nil {
+				r.Inconclusive(err.Error())
+				break
+			}
+			// an Origin-bearing request makes the server resolve (and possibly cache) "no configuration"
+			cs.g.do(reqSpec{Method: "GET", Host: cs.g.api, Path: "/corsb/obj", Headers: map[string]string{"Origin": "https://app.example.com"}})
+		} else {
+			r.Count("configurations_replacing_a_used_one", 1)
 		}
 		st, err := cs.putCORS("corsb", rules)
 		if err != nil {
@@ -739,10 +750,20 @@ func runC34(tier, replay string) {
 				r.Count("invalid_configuration_accepted:"+invalid, 1)
 			}
 		}
-		stored, gst, err := cs.getCORS("corsb")
+		viaAPI, gst, err := cs.getCORS("corsb")
 		if err != nil {
 			r.Inconclusive("GET ?cors unreadable: " + err.Error())
 			break
+		}
+		// the bucket's configuration = what the storage below the server holds
+		var stored []corsRule
+		if cfg, cerr := cs.g.real.GetBucketCORSConfiguration(contextBG(), bn("corsb")); cerr == nil && cfg != nil {
+			for _, sr := range cfg.Rules {
+				stored = append(stored, corsRule{Origins: sr.AllowedOrigins, Methods: sr.AllowedMethods, Headers: sr.AllowedHeaders, Expose: sr.ExposeHeaders, MaxAge: sr.MaxAgeSeconds})
+			}
+		}
+		if fmt.Sprint(viaAPI) != fmt.Sprint(stored) {
+			r.Count("get_cors_answer_differs_from_stored_configuration", 1)
 		}
 		if gst == 200 {
 			r.Count("configurations_stored", 1)
@@ -753,6 +774,9 @@ func runC34(tier, replay string) {
 		if err != nil {
 			r.Inconclusive(err.Error())
 			break
+		}
+		if !withBaseline {
+			before, after = nil, nil
 		}
 		for i := range before {
 			d := ""
